@@ -130,7 +130,7 @@ pub fn strategy(u: &Arc<Universe>, ty: &Ty, o: Opts) -> BoxedStrategy<DV> {
                 max = max.min(*n);
             }
             // lengths around the 64-byte chunking of the element-wise vector writer
-            let chunky = matches!(&**a, Ty::Prim(_)) && max >= 8;
+            let chunky = matches!(&**a, Ty::Prim(_)) && max >= 8 && !matches!(k, SeqKind::ArrayVec(_));
             if chunky {
                 let sz = if let Ty::Prim(p) = &**a { p.wire_size() } else { 1 };
                 let c = (64 / sz).max(1);
